@@ -88,6 +88,7 @@ let n_to_string = function M.N0 -> "0" | M.Npos p -> pos_to_string p
 let () =
   let st = ref M.state0 in
   let dict = ref M.dict_empty in
+  let snaps : (int, M.state) Hashtbl.t = Hashtbl.create 64 in
   (try
     while true do
       let line = input_line stdin in
@@ -103,6 +104,11 @@ let () =
            print_string ("R " ^ (if o.M.o_block then "1 " else "0 ") ^ sx w ^ "\n")
        | ["CLOSE"; cid] -> st := M.close_conn !st (n_of_int (int_of_string cid)); print_string "OK\n"
        | ["RESET"] -> st := M.state0; print_string "OK\n"
+       | ["SNAP"; n] -> Hashtbl.replace snaps (int_of_string n) !st; print_string "OK\n"
+       | ["RESTORE"; n] -> (match Hashtbl.find_opt snaps (int_of_string n) with
+                            | Some s -> st := s; print_string "OK\n"
+                            | None -> print_string "ERR no snapshot\n")
+       | ["STATEHASH"] -> print_string (Digest.to_hex (Digest.string (Marshal.to_string !st [])) ^ "\n")
        | ["P"; h] ->
            let c = bytes_of_string (string_of_hex h) in
            (match M.parse c with
